@@ -196,8 +196,8 @@ impl Check for C02 {
 fn strategy(tier: Tier) -> BoxedStrategy<Case> {
     let maxops = tier.pick(80usize, 400usize);
     (
-        1usize..=64,
-        1usize..=8,
+        prop_oneof![8 => 1usize..=64, 1 => 1usize..=3000],
+        prop_oneof![8 => 1usize..=8, 1 => 1usize..=24],
         prop_oneof![Just(CType::U8), Just(CType::U16), Just(CType::U32), Just(CType::U64), Just(CType::Usize)],
         prop_oneof![2 => Just(HKind::Sip), 1 => (0u64..50).prop_map(HKind::Seeded), 4 => Just(HKind::Split), 1 => (0u64..70).prop_map(HKind::Const), 1 => (1u64..9).prop_map(HKind::Mod), 1 => Just(HKind::Ident), 1 => any::<u64>().prop_map(HKind::Mix)],
         prop::collection::vec(key_spec(), 1..32),
@@ -220,7 +220,7 @@ pub fn checks() -> Vec<Box<dyn DynCheck>> {
 }
 
 pub fn run(ctx: &Ctx) {
-    ctx.set_rule("generated: w in 1..=64, d in 1..=8 (w != d in most cases), counter type in {u8,u16,u32,u64,usize}, hashers incl. row colliders (Split with chosen h1/h2, Const, Mod), universe <=32 keys, history of add/add_n/merge/clear with weights scaled to the remaining head-room so the documented overflow panic is never provoked. After every op, for every universe key: true(x) <= query_point(x) <= N; add/add_n return == query_point right after; a single distinct element is exact. Non-trivial: an overestimate was observed (two keys share a cell in every row), or a merge followed by an add, or w != d with d >= 2. Distinct = hash of the case; evaluations = operations executed.");
+    ctx.set_rule("generated: w in 1..=64 (rarely up to 3000), d in 1..=8 (rarely up to 24; w != d in most cases, both w > d and d > w), counter type in {u8,u16,u32,u64,usize}, hashers incl. row colliders (Split with chosen h1/h2, Const, Mod), universe <=32 keys, history of add/add_n/merge/clear with weights scaled to the remaining head-room so the documented overflow panic is never provoked. After every op, for every universe key: true(x) <= query_point(x) <= N; add/add_n return == query_point right after; a single distinct element is exact. Non-trivial: an overestimate was observed (two keys share a cell in every row), or a merge followed by an add, or w != d with d >= 2. Distinct = hash of the case; evaluations = operations executed.");
     ctx.assume("weights never overflow the counter type (checked_add panic is documented behaviour and not generated)");
     ctx.run_regressions(&[&C02]);
     let t = ctx.tier;
